@@ -196,6 +196,14 @@ def update_for_language(stmts, lang):
             if specific in item:
                 # XXX - maybe make sure clause does not already exist.
                 item[clause] = item[specific]
+            elif clause in item:
+                # Remove a clause installed for another language
+                # by a library processed earlier in this process.
+                for other in ["c", "cxx"]:
+                    specific = other + "_" + clause
+                    if specific in item and item[clause] is item[specific]:
+                        del item[clause]
+                        break
 
 
 def compute_stmt_permutations(out, parts):
